@@ -248,9 +248,89 @@ def run(ctx):
                     ctx.fail('PatternedTensor.solve returned a result of the wrong shape', case, list(Xp.shape), list(pb.shape), tags=['shape', 'PatternedTensor.solve'])
                     continue
                 check_system(ctx, dict(case, patterned=True), name, A, B, Xp.reshape(n * n, -1), 'PatternedTensor.solve')
+    # ---- growth family: patterns on an index space {0..n-1}^2 for which the support of b + A b + A^2 b + ... grows in SEVERAL steps
+    #      (A maps column (x, c) to row (r, x), or (c, x) to (x, r), ...; b sits on a one-hot point, a one-hot row or column): the
+    #      least-dense solution pattern has to be re-derived with fresh bindings at every round of the growth loop
+    from fggs.indices import SumAxis, unitAxis
+    def onehot(i, n):
+        return SumAxis(i, unitAxis, n - i - 1)
+    def growth_steps(n, form, r, c, bform, p0, q0):
+        """number of rounds in which the support of b + A b + ... strictly grows (dense reachability)"""
+        rowf = (lambda x: (r, x)) if form.startswith('rx') else (lambda x: (x, r))
+        colf = (lambda x: (x, c)) if form.endswith('xc') else (lambda x: (c, x))
+        step = {colf(x): rowf(x) for x in range(n)}
+        sup = {(p0, q0)} if bform == 'point' else {(p0, y) for y in range(n)} if bform == 'row' else {(y, q0) for y in range(n)}
+        k = 0
+        while True:
+            new = sup | {step[v] for v in sup if v in step}
+            if new == sup:
+                return k
+            sup, k = new, k + 1
+    for rep_ in range(12 if ctx.quick else 120):
+        for _try in range(60):
+            n = ctx.rng.choice([2, 3])
+            r, c = ctx.rng.randrange(n), ctx.rng.randrange(n)
+            form = ctx.rng.choice(['rx<-xc', 'xr<-cx', 'rx<-cx', 'xr<-xc'])
+            bform = ctx.rng.choice(['point', 'row', 'col', 'point'])
+            p0, q0 = ctx.rng.randrange(n), ctx.rng.randrange(n)
+            g = growth_steps(n, form, r, c, bform, p0, q0)
+            if g >= 2 or (rep_ % 4 == 3 and g >= 1):
+                break
+        ctx.count(f'patterned-solve.growth-family.steps={g}')
+        for name in ('real', 'log', 'viterbi', 'bool'):
+            base = 'real' if name == 'log' else name
+            zero = {'real': 0.0, 'viterbi': -math.inf, 'bool': False}[base]
+            k_ = PhysicalAxis(n)
+            row = ProductAxis((onehot(r, n), k_)) if form.startswith('rx') else ProductAxis((k_, onehot(r, n)))
+            col = ProductAxis((k_, onehot(c, n))) if form.endswith('xc') else ProductAxis((onehot(c, n), k_))
+            if base == 'bool':
+                pa_phys = torch.tensor([ctx.rng.random() < 0.8 for _ in range(n)])
+            elif base == 'viterbi':
+                pa_phys = torch.tensor([ctx.rng.choice([0.0, -1.0, -2.0, -1.0]) for _ in range(n)], dtype=torch.float64)
+            else:
+                pa_phys = torch.tensor([ctx.rng.choice([0.25, 0.125, 0.5, 0.5]) for _ in range(n)], dtype=torch.float64)
+            pa = PatternedTensor(pa_phys, (k_,), (row, col), zero)
+            l_ = PhysicalAxis(n)
+            if bform == 'point':
+                bv, bp = ProductAxis((onehot(p0, n), onehot(q0, n))), ()
+            elif bform == 'row':
+                bv, bp = ProductAxis((onehot(p0, n), l_)), (l_,)
+            else:
+                bv, bp = ProductAxis((l_, onehot(q0, n))), (l_,)
+            shp = tuple(a.numel() for a in bp)
+            if base == 'bool':
+                pb_phys = torch.ones(shp, dtype=torch.bool)
+            elif base == 'viterbi':
+                pb_phys = torch.tensor([ctx.rng.choice([0.0, -1.0]) for _ in range(max(1, n if bp else 1))][:n if bp else 1], dtype=torch.float64).reshape(shp)
+            else:
+                pb_phys = torch.tensor([ctx.rng.choice([1.0, 2.0, 0.5]) for _ in range(n if bp else 1)], dtype=torch.float64).reshape(shp)
+            pb = PatternedTensor(pb_phys, bp, (bv,), zero)
+            A, B = pa.to_dense(), pb.to_dense().reshape(n * n, -1)
+            if name == 'log':
+                pa = PatternedTensor(pa.physical.log(), pa.paxes, pa.vaxes, -math.inf)
+                pb = PatternedTensor(pb.physical.log(), pb.paxes, pb.vaxes, -math.inf)
+            case = dict(semiring=name, A=A.tolist(), b=B.tolist(), family=f'growth {form} r={r} c={c} b={bform}({p0},{q0}) n={n}')
+            ctx.case(case, ('growth-family', name, form, r, c, bform, p0, q0, n), sample_every=40)
+            ctx.count(f'patterned-solve.growth-family.{name}')
+            da, db = pa.to_dense().clone(), pb.to_dense().clone()
+            try:
+                Xp = from_sr(pa.solve(pb, S[name]).to_dense(), name)
+            except Exception as ex:  # noqa
+                ctx.fail(f'PatternedTensor.solve raised {type(ex).__name__}: {str(ex)[:80]}', case, repr(ex), None,
+                         tags=['raises', 'PatternedTensor.solve', name, type(ex).__name__])
+                continue
+            if not ptgen.same_dense(pa.to_dense(), da) or not ptgen.same_dense(pb.to_dense(), db):
+                ctx.fail('PatternedTensor.solve modified its arguments', case, None, None, tags=['args-modified', 'PatternedTensor.solve'])
+            if list(Xp.shape) != list(pb.shape):
+                ctx.fail('PatternedTensor.solve returned a result of the wrong shape', case, list(Xp.shape), list(pb.shape), tags=['shape', 'PatternedTensor.solve'])
+                continue
+            check_system(ctx, dict(case, patterned=True), name, A, B, Xp.reshape(n * n, -1), 'PatternedTensor.solve')
     # ---- corpus: systems on which an LU answer is slightly negative / -0.0 and must be rejected
     for A, B in [([[2.0]], [1e-4]), ([[1.5]], [1e-5]), ([[0.5, 1.0], [1.0, 0.5]], [1e-4, 1e-4]), ([[1.0]], [0.0]), ([[math.inf]], [0.0]),
-                 ([[0.0, 2.0], [2.0, 0.0]], [1e-5, 0.0])]:
+                 ([[0.0, 2.0], [2.0, 0.0]], [1e-5, 0.0]),
+                 # divergent systems whose formal LU solution is negative but tiny (below machine epsilon): the sign, not the size, decides
+                 ([[2.0]], [1e-17]), ([[2.0]], [1e-300]), ([[1e8]], [1.0]), ([[1e17]], [1.0]), ([[0.0, 2.0], [2.0, 0.0]], [1e-18, 0.0]),
+                 ([[0.0, 2.0], [2.0, 0.0]], [1e-9, 0.0]), ([[3.0, 0.0], [0.0, 0.5]], [1e-20, 1.0])]:
         A_t, B_t = torch.tensor(A, dtype=torch.float64), torch.tensor(B, dtype=torch.float64)
         case = dict(semiring='real', A=A, b=B, corpus=True)
         ctx.case(case, ('corpus', str(A), str(B)))
